@@ -104,6 +104,7 @@ ScNone == [all |-> FALSE, ifs |-> {}]
 ScBoth == [all |-> FALSE, ifs |-> {"if1", "if2"}]
 ScAllIf1 == [all |-> TRUE, ifs |-> {"if1"}]
 Scopes3 == {ScAll, ScIf1, ScIf2}
+Scopes4 == {ScAll, ScIf1, ScIf2, ScAllIf1}
 Scopes6 == {ScAll, ScIf1, ScIf2, ScNone, ScBoth, ScAllIf1}
 
 =============================================================================
